@@ -87,7 +87,13 @@ struct ChannelSlot {
 
 impl ChannelSlot {
     fn new(mio_channel_bound: usize, channel_id: u16) -> (ChannelSlot, IoLoopHandle) {
-        let (mio_tx, mio_rx) = mio_sync_channel(mio_channel_bound);
+        // A bound of 0 would make this a rendezvous channel, on which a send completes
+        // only while the receiver is blocked waiting for it. The I/O thread never does
+        // that: it polls for readiness, and readiness is signalled only after a send has
+        // completed, so the first message would never get through. A bound of 1 gives
+        // the documented behaviour (senders block until the I/O thread has taken the
+        // previous message).
+        let (mio_tx, mio_rx) = mio_sync_channel(usize::max(mio_channel_bound, 1));
 
         // Bound of 2 is intentional here. The normal case for this channel is that it
         // will have at most 1 message in it (the response to a synchronous RPC call).
